@@ -179,3 +179,17 @@ Theorem C16_verify_store_incomplete_refuted : forall loc,
     vdone q = true /\ fl = [(0%nat, ex_o)] /\ view w ex_o = None.
 Proof. exact verify_store_incomplete_refuted. Qed.
 Print Assumptions C16_verify_store_incomplete_refuted.
+
+(* a writer may stage a directory WITHOUT files: its workload is just the directory object of the empty
+   listing, and that object is in the final store like any other ([C16_any_schedule] and
+   [C16_directory_object] never ask for a non-empty file list; this is the instance) *)
+Theorem C16_empty_workload : forall (H : bytes -> oid) (ser : list (list N * oid) -> bytes) (dirid : bytes -> oid)
+    loc (wkls : list (list (list N * bytes))) ps sched w' ps',
+  consistent (map (items_of H ser dirid) wkls) ->
+  legal_all loc (map (items_of H ser dirid) wkls) ps = true ->
+  run (map (items_of H ser dirid) wkls) sched w0 ps = Some (w', ps') -> all_done ps' = true ->
+  In [] wkls ->
+  items_of H ser dirid [] = [(dirid (ser []), ser [])] /\
+  view w' (dirid (ser [])) = Some (ser [], loc).
+Proof. exact empty_workload. Qed.
+Print Assumptions C16_empty_workload.
